@@ -95,15 +95,25 @@ impl<T: Ord> MemoryBoundedQueue<T> {
     /// queue.push(contig_data.clone(), contig_data.len()).unwrap(); // Blocks if queue is full!
     /// ```
     pub fn push(&self, item: T, size_bytes: usize) -> Result<(), PushError> {
+        #[cfg(ragc_verif)]
+        crate::verif_hooks::yield_point(1);
         let mut inner = self.inner.lock().unwrap();
+        #[cfg(ragc_verif)]
+        crate::verif_hooks::ev("q.push.enter", [Arc::as_ptr(&self.inner) as u64, size_bytes as u64, inner.items.len() as u64, (inner.current_size as u64) << 1 | inner.closed as u64]);
 
         // Wait while queue would be too full
         while inner.current_size + size_bytes > self.capacity_bytes && !inner.closed {
+            #[cfg(ragc_verif)]
+            crate::verif_hooks::ev("q.push.wait", [Arc::as_ptr(&self.inner) as u64, size_bytes as u64, inner.items.len() as u64, (inner.current_size as u64) << 1 | inner.closed as u64]);
             inner = self.not_full.wait(inner).unwrap();
+            #[cfg(ragc_verif)]
+            crate::verif_hooks::ev("q.push.wake", [Arc::as_ptr(&self.inner) as u64, size_bytes as u64, inner.items.len() as u64, (inner.current_size as u64) << 1 | inner.closed as u64]);
         }
 
         // Check if closed while we were waiting
         if inner.closed {
+            #[cfg(ragc_verif)]
+            crate::verif_hooks::ev("q.push.refuse", [Arc::as_ptr(&self.inner) as u64, size_bytes as u64, inner.items.len() as u64, (inner.current_size as u64) << 1 | inner.closed as u64]);
             return Err(PushError::Closed);
         }
 
@@ -113,6 +123,8 @@ impl<T: Ord> MemoryBoundedQueue<T> {
             size: size_bytes,
         });
         inner.current_size += size_bytes;
+        #[cfg(ragc_verif)]
+        crate::verif_hooks::ev("q.push.admit", [Arc::as_ptr(&self.inner) as u64, size_bytes as u64, inner.items.len() as u64, (inner.current_size as u64) << 1 | inner.closed as u64]);
 
         // Signal that queue is not empty
         self.not_empty.notify_one();
@@ -124,13 +136,19 @@ impl<T: Ord> MemoryBoundedQueue<T> {
     ///
     /// Returns `Err(WouldBlock)` if adding would exceed capacity.
     pub fn try_push(&self, item: T, size_bytes: usize) -> Result<(), TryPushError> {
+        #[cfg(ragc_verif)]
+        crate::verif_hooks::yield_point(2);
         let mut inner = self.inner.lock().unwrap();
 
         if inner.closed {
+            #[cfg(ragc_verif)]
+            crate::verif_hooks::ev("q.trypush.refuse", [Arc::as_ptr(&self.inner) as u64, size_bytes as u64, inner.items.len() as u64, (inner.current_size as u64) << 1 | inner.closed as u64]);
             return Err(TryPushError::Closed);
         }
 
         if inner.current_size + size_bytes > self.capacity_bytes {
+            #[cfg(ragc_verif)]
+            crate::verif_hooks::ev("q.trypush.wouldblock", [Arc::as_ptr(&self.inner) as u64, size_bytes as u64, inner.items.len() as u64, (inner.current_size as u64) << 1 | inner.closed as u64]);
             return Err(TryPushError::WouldBlock);
         }
 
@@ -140,6 +158,8 @@ impl<T: Ord> MemoryBoundedQueue<T> {
             size: size_bytes,
         });
         inner.current_size += size_bytes;
+        #[cfg(ragc_verif)]
+        crate::verif_hooks::ev("q.trypush.admit", [Arc::as_ptr(&self.inner) as u64, size_bytes as u64, inner.items.len() as u64, (inner.current_size as u64) << 1 | inner.closed as u64]);
 
         // Signal that queue is not empty
         self.not_empty.notify_one();
@@ -164,21 +184,33 @@ impl<T: Ord> MemoryBoundedQueue<T> {
     /// // Queue is closed and empty - we're done!
     /// ```
     pub fn pull(&self) -> Option<T> {
+        #[cfg(ragc_verif)]
+        crate::verif_hooks::yield_point(3);
         let mut inner = self.inner.lock().unwrap();
+        #[cfg(ragc_verif)]
+        crate::verif_hooks::ev("q.pull.enter", [Arc::as_ptr(&self.inner) as u64, 0 as u64, inner.items.len() as u64, (inner.current_size as u64) << 1 | inner.closed as u64]);
 
         // Wait while queue is empty and not closed
         while inner.items.is_empty() && !inner.closed {
+            #[cfg(ragc_verif)]
+            crate::verif_hooks::ev("q.pull.wait", [Arc::as_ptr(&self.inner) as u64, 0 as u64, inner.items.len() as u64, (inner.current_size as u64) << 1 | inner.closed as u64]);
             inner = self.not_empty.wait(inner).unwrap();
+            #[cfg(ragc_verif)]
+            crate::verif_hooks::ev("q.pull.wake", [Arc::as_ptr(&self.inner) as u64, 0 as u64, inner.items.len() as u64, (inner.current_size as u64) << 1 | inner.closed as u64]);
         }
 
         // If closed and empty, return None
         if inner.items.is_empty() {
+            #[cfg(ragc_verif)]
+            crate::verif_hooks::ev("q.pull.eos", [Arc::as_ptr(&self.inner) as u64, 0 as u64, inner.items.len() as u64, (inner.current_size as u64) << 1 | inner.closed as u64]);
             return None;
         }
 
         // Remove highest-priority item (BinaryHeap::pop returns max element)
         let priority_item = inner.items.pop().unwrap();
         inner.current_size -= priority_item.size;
+        #[cfg(ragc_verif)]
+        crate::verif_hooks::ev("q.pull.take", [Arc::as_ptr(&self.inner) as u64, priority_item.size as u64, inner.items.len() as u64, (inner.current_size as u64) << 1 | inner.closed as u64]);
 
         // Signal that queue has space
         self.not_full.notify_one();
@@ -190,15 +222,21 @@ impl<T: Ord> MemoryBoundedQueue<T> {
     ///
     /// Returns `None` if queue is empty (even if not closed).
     pub fn try_pull(&self) -> Option<T> {
+        #[cfg(ragc_verif)]
+        crate::verif_hooks::yield_point(4);
         let mut inner = self.inner.lock().unwrap();
 
         if inner.items.is_empty() {
+            #[cfg(ragc_verif)]
+            crate::verif_hooks::ev("q.trypull.empty", [Arc::as_ptr(&self.inner) as u64, 0 as u64, inner.items.len() as u64, (inner.current_size as u64) << 1 | inner.closed as u64]);
             return None;
         }
 
         // Remove highest-priority item (BinaryHeap::pop returns max element)
         let priority_item = inner.items.pop().unwrap();
         inner.current_size -= priority_item.size;
+        #[cfg(ragc_verif)]
+        crate::verif_hooks::ev("q.trypull.take", [Arc::as_ptr(&self.inner) as u64, priority_item.size as u64, inner.items.len() as u64, (inner.current_size as u64) << 1 | inner.closed as u64]);
 
         // Signal that queue has space
         self.not_full.notify_one();
@@ -213,8 +251,12 @@ impl<T: Ord> MemoryBoundedQueue<T> {
     /// - Pulls will drain remaining items, then return None
     /// - Workers can detect completion via `pull()` returning None
     pub fn close(&self) {
+        #[cfg(ragc_verif)]
+        crate::verif_hooks::yield_point(5);
         let mut inner = self.inner.lock().unwrap();
         inner.closed = true;
+        #[cfg(ragc_verif)]
+        crate::verif_hooks::ev("q.close", [Arc::as_ptr(&self.inner) as u64, 0 as u64, inner.items.len() as u64, (inner.current_size as u64) << 1 | inner.closed as u64]);
 
         // Wake up all waiting threads
         self.not_full.notify_all();
